@@ -25,6 +25,7 @@ class Ctx:
         self.views = []
         self.assumptions = []
         self.extra = {}
+        self.noverdict = []
         self._ord = {}
 
     # ---- declaring what is checked
@@ -54,20 +55,31 @@ class Ctx:
         self.instances.append({"rule": rid, "site": ":".join(str(k) for k in key_parts),
                                "verdict": "VIOLATED", "loc": loc, "facts": facts, "msg": msg})
 
+    # ---- no verdict: the rule cannot analyse this tree.  This is neither "holds" nor a violation: reporting it as a
+    # violation would raise an alarm on behaviour-preserving rewrites the analysis does not understand.
+    def no_verdict(self, rid, kind, where, msg, loc=None):
+        k = (rid, kind, where)
+        if any((x["rule"], x["kind"], x["where"]) == k for x in self.noverdict):
+            return
+        self.noverdict.append({"rule": rid, "kind": kind, "where": where, "msg": msg, "loc": loc})
+
     def anchor_lost(self, rid, what, loc=None):
-        self.violation(rid, ("ANCHOR-LOST", what),
-                       "cannot locate the construct this rule analyses (%s); failing closed" % what, loc)
+        self.no_verdict(rid, "ANCHOR-LOST", what, "cannot locate the construct this rule analyses (%s)" % what, loc)
 
     def undecided(self, rid, where, why, loc=None):
-        self.violation(rid, ("UNDECIDED", where), "cannot decide: %s; failing closed" % why, loc)
+        self.no_verdict(rid, "UNDECIDED", where, "cannot decide: %s" % why, loc)
 
     def floor(self, rid, what, n, minimum):
         if n < minimum:
-            self.violation(rid, ("ANCHOR-LOST", what),
-                           "found %d instance(s) of %s, expected at least %d (confirmed by hand on the pinned tree); "
-                           "a rule that matches nothing would pass vacuously" % (n, what, minimum))
+            self.no_verdict(rid, "ANCHOR-LOST", what,
+                            "found %d instance(s) of %s, expected at least %d (confirmed by hand on the pinned tree); "
+                            "a rule that matches nothing would pass vacuously" % (n, what, minimum))
             return False
         return True
+
+    def missing(self, rid, key_parts, msg, loc=None):
+        """A mechanism the property depends on is absent: that *is* a violation."""
+        self.violation(rid, key_parts, msg, loc)
 
 
 def load_known():
@@ -101,6 +113,8 @@ def finish(ctx, level="other"):
             json.dump({"property": ctx.prop, **v}, f, indent=1, default=str)
         print("FINDING %s %s: %s" % (v["key"], v.get("loc") or "", v["msg"]))
         print("VIOLATION property=%s replay=%s" % (ctx.prop, path))
+    for nv in ctx.noverdict:
+        print("NO-VERDICT property=%s rule=%s %s: %s %s" % (ctx.prop, nv["rule"], nv["kind"], nv["msg"], nv.get("loc") or ""))
     held = [i for i in ctx.instances if i["verdict"] == "holds"]
     sites = sorted({(i["rule"], i["site"]) for i in ctx.instances})
     samples = []
@@ -130,6 +144,7 @@ def finish(ctx, level="other"):
             "instances_holding": len(held),
             "views": ctx.views,
             "known_findings_matched": [k["key"] for _, k in listed],
+            "no_verdict": ctx.noverdict,
             "notes": ctx.notes,
             **ctx.extra,
         },
@@ -140,6 +155,17 @@ def finish(ctx, level="other"):
     os.makedirs(evdir, exist_ok=True)
     with open(os.path.join(evdir, "%s.json" % ctx.prop), "w") as f:
         json.dump(ev, f, indent=1, default=str)
-    print("%s: %d rule instances over %d sites, %d hold, %d known finding(s), %d violation(s) [%.1fs]" % (
-        ctx.prop, len(ctx.instances), len(sites), len(held), len(listed), len(unlisted), wall))
-    return 1 if unlisted else 0
+    print("%s: %d rule instances over %d sites, %d hold, %d known finding(s), %d violation(s), %d undecided [%.1fs]" % (
+        ctx.prop, len(ctx.instances), len(sites), len(held), len(listed), len(unlisted), len(ctx.noverdict), wall))
+    if unlisted:
+        return 1
+    if ctx.noverdict:
+        print("NO VERDICT for %s: the analysis could not decide %d rule instance(s) on this tree (exit 2; not a violation)" % (ctx.prop, len(ctx.noverdict)))
+        return 2
+    return 0
+
+
+def unlisted_violations(ctx):
+    known = load_known()
+    open_keys = {(k["property"], k["key"]) for k in known.get("open", [])}
+    return [v for v in ctx.violations if (ctx.prop, v["key"]) not in open_keys]
